@@ -272,6 +272,12 @@ Guards2(e) ==
     ELSE IF e.ev = "close" THEN GuardsClose2(e)
     ELSE IF e.ev = "ret" /\ e.th \in DOMAIN cs.curs THEN GuardsRet2(e)
     ELSE IF e.ev = "obs" THEN GuardsObs2(e)
+    ELSE IF e.ev = "storm" THEN
+        \* k goroutines called Close on one scope at the same instant: every instance closed exactly once, nobody
+        \* panicked, and exactly one caller got the disposal error when an instance's Close failed (nil otherwise)
+        {CG("storm_instances_closed_exactly_once", {"C12", "C10", "C09"}, \A i \in DOMAIN e.closes : e.closes[i] = 1),
+         CG("storm_no_panic", {"C12", "C09"}, e.panics = 0),
+         CG("storm_one_report", {"C12"}, e.errs = IF e.fail THEN 1 ELSE 0)}
     ELSE IF e.ev \in {"hang", "fatal"} THEN {CG("no_hang_no_crash", {"C09", "C13"}, FALSE)}
     ELSE {}
 
